@@ -4,6 +4,7 @@
 From Coq Require Import Extraction ExtrOcamlBasic.
 From RV Require Import Base.
 From RV.Model Require Import Utf8 Indexer Insn Fold Pike BT Exec Api.
+From RV.Spec Require Import LitSpec.
 
 Definition ix_utf8 : indexer := utf8_indexer fold_code_point.
 Definition ix_ascii : indexer := ascii_indexer.
@@ -21,5 +22,8 @@ Definition drv_first_ident (text : list N) (ms : list amatch) :=
 Definition drv_all_const (text : list N) (ms : list amatch) (c : list N) :=
   replace_all_with text ms (fun _ => AOk c).
 
-Extraction "model.ml" drv_bt drv_pk fold_code_point
+Definition drv_lit_occ (icase unicode : bool) (s : list N) (t : list N) :=
+  lit_occurrences (fun c => if icase then fold_code_point c unicode else c) s t.
+
+Extraction "model.ml" drv_lit_occ drv_bt drv_pk fold_code_point
   group named_group named_groups groups replace replace_all drv_ident drv_first_ident drv_all_const escape.
